@@ -21,6 +21,12 @@ def checkCase (j : Json) : Except String Verdict := do
   | [a, b] => if a == b then v := v.mon "C02" "sealing_twice_differs" 0
   | _ => pure ()
   if (← jstr j "openOtherKey") != "err" then v := v.mon "C02" "opens_under_other_key" 0
+  let rn := (j.getObjVal? "repeatN").toOption.bind (·.getNat?.toOption) |>.getD 0
+  let rd := (j.getObjVal? "repeatDistinct").toOption.bind (·.getNat?.toOption) |>.getD 0
+  if rn != rd then
+    v := v.mon "C02" "sealing_again_always_differs" 0 s!"{rn} seals of one value, {rd} distinct strings"
+    v := v.mon "C06" "sealing_again_always_differs" 0 s!"{rn} seals of one value, {rd} distinct strings"
+  if rn > 100 then v := v.br "repeat/many"
   for x in vars do
     let kind ← jstr x "kind"
     let t ← jhex x "t"
